@@ -22,6 +22,7 @@ func (c *Chain) CallIter(h util.Uint160, method string, args ...any) ([]stackite
 	if err != nil {
 		return nil, err
 	}
+	c.CoverVM(ic.VM)
 	defer ic.Finalize()
 	ic.VM.LoadWithFlags(tx.Script, callflag.All)
 	if err = ic.VM.Run(); err != nil {
